@@ -15,6 +15,8 @@ func main() {
 		runExec(os.Stdin, os.Stdout)
 	case "gen":
 		runGen(os.Args[2:])
+	case "race":
+		runRace(os.Args[2:])
 	default:
 		fmt.Fprintln(os.Stderr, "unknown command")
 		os.Exit(2)
